@@ -137,7 +137,8 @@ def mkVariant : List Int → Option Variant
   | _ => none
 
 def mkMib : List Int → Option Mib
-  | [ver, mob, dhl, dl] => if allNonneg [ver, mob, dhl, dl] then some ⟨nat! ver, nat! mob, nat! dhl, nat! dl⟩ else none
+  | [ver, mob, dhl, dl, tc] =>
+    if allNonneg [ver, mob, dhl, dl, tc] then some ⟨nat! ver, nat! mob, nat! dhl, nat! dl, nat! tc⟩ else none
   | _ => none
 
 /-- nh ht hst scf co tcid length mhl lifeMs(-1 = none) areaLat areaLon a b angle -/
@@ -150,7 +151,7 @@ def mkReq (data : Bytes) : List Int → Option Request
     else none
   | _ => none
 
-/-- `pkt <kind> …` : kinds beacon shb gbc guc lsq lsr (variant 3, mib 4, then the arguments) / fwd / btp -/
+/-- `pkt <kind> …` : kinds beacon shb gbc guc lsq lsr (variant 3, mib 5, then the arguments) / fwd / btp -/
 def pktOp (t : List String) : Option String :=
   match t with
   | ["fwd", hex] => do
@@ -166,8 +167,8 @@ def pktOp (t : List String) : Option String :=
     let data ← if hasData then (rest.getLast?.bind parseHex) else some []
     let a ← ints? (if hasData then rest.dropLast else rest)
     let v ← mkVariant (a.take 3)
-    let mib ← mkMib ((a.drop 3).take 4)
-    let a := a.drop 7
+    let mib ← mkMib ((a.drop 3).take 5)
+    let a := a.drop 8
     match kind with
     | "beacon" => do
       let ego ← mkLpv a
